@@ -16,6 +16,14 @@ from __future__ import annotations
 import os
 
 
+def canon_id(text):
+    """An id as the number it denotes: xsd:unsignedInt collapses white space and allows a plus sign and leading zeros, so
+    '003', ' 3' and '+3' are all the id 3 (anything that is no such numeral is returned as it stands)."""
+    t = (text or "").strip(" \t\n\r")
+    t = t[1:] if t[:1] == "+" else t
+    return str(int(t)) if t.isdecimal() else text
+
+
 class Sink:
     def __init__(self):
         self.violations = []  # (property, key, what)
@@ -217,7 +225,7 @@ def _install_id():
         # (p:cTn of an animation, a:cNvPr inside a locked canvas ...) - what python-pptx's own allocator looks at (//@id)
         ids = etree.XPath("//*[not(ancestor-or-self::p:oleObj)]/@id", namespaces={"p": "http://schemas.openxmlformats.org/presentationml/2006/main"})(root)
         # (an id is a NUMBER: '003' and '3' are the same id, both valid lexical forms of xsd:unsignedInt)
-        return {str(int(i)) for i in ids if i.isdecimal()} | {str(int(i)) if i.isdecimal() else i for i in etree.XPath("//p:cNvPr[not(ancestor::p:oleObj)]/@id", namespaces={"p": "http://schemas.openxmlformats.org/presentationml/2006/main"})(root)}
+        return {canon_id(i) for i in ids if canon_id(i).isdecimal()} | {canon_id(i) for i in etree.XPath("//p:cNvPr[not(ancestor::p:oleObj)]/@id", namespaces={"p": "http://schemas.openxmlformats.org/presentationml/2006/main"})(root)}
 
     def wrap_shape_id(cls, label):
         orig = cls.__dict__["_next_shape_id"].fget
@@ -253,7 +261,7 @@ def _install_id():
     def _next_id(self):
         res = orig_sid(self)
         try:
-            used = {str(int(s.get("id"))) if (s.get("id") or "").isdecimal() else s.get("id") for s in self}
+            used = {canon_id(s.get("id")) for s in self}
             SINK.count("M-ID:CT_SlideIdList._next_id")
             if str(res) in used or not (256 <= res <= 2147483647):
                 SINK.violation("C06", "slide-id-not-fresh-or-out-of-range", "_next_id returned %r with ids %s" % (res, sorted(used)[:8]))
